@@ -35,9 +35,65 @@ def dropped(fdef):
     return out
 
 
+_MODSTATE = {}
+
+
+def module_mutable_names(ctx, sc):
+    """module-level names bound to mutable containers (dict/list/set displays or constructor calls) in the repository module"""
+    if sc.module in _MODSTATE:
+        return _MODSTATE[sc.module]
+    out = set()
+    try:
+        tree = ast.parse(open(os.path.join(ctx.repo, sc.module), newline=None).read())
+    except (OSError, SyntaxError):
+        tree = ast.Module(body=[], type_ignores=[])
+    imported = set()
+    for n in tree.body:
+        if isinstance(n, ast.Assign):
+            v = n.value
+            mutable = isinstance(v, (ast.Dict, ast.List, ast.Set, ast.ListComp, ast.DictComp, ast.SetComp)) or \
+                (isinstance(v, ast.Call) and isinstance(v.func, ast.Name) and v.func.id in ("dict", "list", "set", "defaultdict", "OrderedDict", "deque"))
+            if mutable:
+                for t in n.targets:
+                    if isinstance(t, ast.Name):
+                        out.add(t.id)
+        elif isinstance(n, ast.ImportFrom) and n.module and n.level >= 1:
+            # names imported from sibling modules: mutable if they are mutable there
+            sib = os.path.join(os.path.dirname(os.path.join(ctx.repo, sc.module)), n.module.split(".")[-1] + ".py")
+            try:
+                st = ast.parse(open(sib, newline=None).read())
+            except (OSError, SyntaxError):
+                continue
+            sibmut = set()
+            for m in st.body:
+                if isinstance(m, ast.Assign) and isinstance(m.value, (ast.Dict, ast.List, ast.Set)) or \
+                   (isinstance(m, ast.Assign) and isinstance(m.value, ast.Call) and isinstance(m.value.func, ast.Name) and m.value.func.id in ("dict", "list", "set")):
+                    for t in m.targets:
+                        if isinstance(t, ast.Name):
+                            sibmut.add(t.id)
+            for al in n.names:
+                if al.name in sibmut:
+                    out.add(al.asname or al.name)
+    _MODSTATE[sc.module] = out
+    return out
+
+
+def undeclared_module_state(ctx, sc, fdef):
+    declared = set(sc.globals) | set(sc.consts) | set(ctx.module_consts)
+    mm = module_mutable_names(ctx, sc) - declared
+    local = {n.id for n in ast.walk(fdef) if isinstance(n, ast.Name) and isinstance(n.ctx, ast.Store)} | {a.arg for a in fdef.args.args}
+    found = {}
+    for n in ast.walk(fdef):
+        if isinstance(n, ast.Name) and n.id in mm and n.id not in local and n.id not in found:
+            found[n.id] = n.lineno
+    return sorted(found.items())
+
+
 def verify_function(ctx, c, section, only_prop):
     sc = c.sidecar
     ctx.cur_globals = sc.globals
+    ctx.cur_module = sc.module
+    ctx.cur_class = c.qual.split(".")[0] if "." in c.qual else None
     real, path = ctx.extract(sc.module, c.qual)
     if real is None:
         section["errors"].append("function %s not found in %s (named by a contract)" % (c.qual, sc.module))
@@ -48,6 +104,14 @@ def verify_function(ctx, c, section, only_prop):
         return
     section["functions"].append({"qualname": "%s:%s" % (sc.module, c.qual), "file": path, "sha256": C.sha256_file(path),
                                  "lines": [real.lineno, real.end_lineno], "dropped": dropped(real), "contract_mode": c.mode, "props": c.props})
+    # modular reasoning assumes the function depends on the declared state only: module-level mutable objects it touches must be declared
+    undeclared = undeclared_module_state(ctx, sc, real)
+    for nm, line in undeclared:
+        section["obligations"].append({"name": "%s/frame/undeclared-module-state:%s" % (c.name, nm), "status": C.FAILED, "backend": "closed-eval", "time_s": 0,
+                                       "goal": "%s reads and writes only the module state its contract declares (%s)" % (c.qual, ", ".join(sc.globals) or "none"),
+                                       "detail": "line %d: uses the module-level mutable object `%s`, which the contract does not list: results may depend on "
+                                                 "earlier calls (hidden state)" % (line, nm), "props": c.props, "witness_families": c.d.get("families", []),
+                                       "counterexample": {"name": nm, "line": line}})
     if c.mode == "trusted":
         section["trusted"].append("contract of %s assumed, body not verified: %s" % (c.qual, c.d.get("why", "")))
         return
